@@ -146,6 +146,17 @@ class Resolver:
                     continue
                 if isinstance(val, ast.Constant) and val.value is None:
                     ao[tgt.attr] = True
+                if isinstance(val, ast.Name) and not isinstance(f.node, ast.Lambda):
+                    # self.attr = <annotated parameter>
+                    a = f.node.args
+                    for arg in a.posonlyargs + a.args + a.kwonlyargs:
+                        if arg.arg == val.id and arg.annotation is not None:
+                            t, o = _ann_types(p, f.module, arg.annotation)
+                            t = {x for x in t if x in p.classes}
+                            if t:
+                                at.setdefault(tgt.attr, set()).update(t)
+                            if o:
+                                ao[tgt.attr] = True
                 if isinstance(val, ast.Call):
                     fn = dotted(val.func)
                     if fn:
@@ -175,7 +186,9 @@ class Resolver:
                         a = a.func
                     d = dotted(a)
                     if d:
-                        self.future_excs.setdefault(c.qualname, set()).add(p.resolve_dotted(f.module, d))
+                        r = p.resolve_dotted(f.module, d)
+                        if r in p.classes or p.known_class(r):
+                            self.future_excs.setdefault(c.qualname, set()).add(r)
 
     def attr_type(self, clsname: str, attr: str) -> set[str]:
         out: set[str] = set()
